@@ -11,6 +11,12 @@ TRUST = ("Trusted base: go/types, go/ssa and the VTA/CHA call graphs of golang.o
 
 # id -> (technique, claim text, design_ref)
 CLAIMED = {
+ "C03": ("SSA guard/path rules on tryParsePackage, WritePacket, NextPackageUntil, isDoneFinal, Reset; vacuous-mask detection through constant values",
+         "Decides structural necessary conditions of response delimiting: exact, non-vacuous final-DONE tests, the path condition of the synthetic DONE(FINAL), lastPkgRx tracking every delivery, rx reset at EOM, draining on every callback-error path and in nil-callback mode, and the tx reset. Histories (what the previous response left behind) and packetisations are not explored.",
+         "DESIGN.md §3 C03"),
+ "C08": ("SSA guard dominance (E-DOM) of Login's success returns against an acceptance script written from the property statement; error, context and assertion-satisfiability rules over all of Login",
+         "Decides that every success return of Login is dominated by the complete acceptance script of its flow (type assertions, status/message-id equalities, exact parameter counts, key parameter types, acknowledged key exchange, capability reply stored, final DONE), that no error on the way is ignored, that every wait is bound to the caller's context and that the all-zero capability test is per type. Reply histories are not explored: this is the necessary 'success only if accepted' direction on all code paths, not a simulation of servers.",
+         "DESIGN.md §3 C08"),
  "C06": ("SSA wire-shape automata (E-SHAPE): writer language ⊆ reader language by product search; token table from LookupPackage's switch (go/types constants); byte-accounting and freshness rules",
          "Decides writer/reader agreement on the sequence of field widths for every package type (per wide variant) and every field codec pair, token/type agreement with LookupPackage, acceptance of the TDS 5.0 layouts by the server-only readers, read-side byte accounting, per-iteration freshness of parse targets and the oversize guard of the login record helper. It decides wire SHAPE, not values: length prefixes' numeric values, capability bit positions and login record offsets are not covered.",
          "DESIGN.md §3 C06"),
